@@ -70,7 +70,7 @@ def _run_control(mod, pm, tier, c):
         pre = {k for k in changes if k.endswith(".pyx")}
         try:
             pm2 = pm.mutated(changes, predesugared=pre)
-            ctx2 = Ctx(mod.PROP, tier, quiet=True)
+            ctx2 = Ctx(mod.PROP, "control", quiet=True)
             mod.run(pm2, ctx2)
             fired = [f for f in ctx2.findings if f.rule == c["rule"] or f.rule in c.get("also", ())]
             base_keys = c.get("_base_keys", set())
